@@ -282,8 +282,11 @@ def run(rep, tier, seed):
 
     def one_round(arg):
         r, (cfg, pool), (bname, bexe) = arg
+        # every third round uses three times as many threads (same number of parses): some faults need more calls in
+        # flight at once than there are cores
+        nt = n_threads * 3 if r % 3 == 2 else n_threads
         out = run_file(bexe, [case_line(*k) for k in pool], "threads",
-                       env={"HIST_THREADS": n_threads, "HIST_ITERS": iters, "HIST_SEED": seed * 1000 + r,
+                       env={"HIST_THREADS": nt, "HIST_ITERS": iters * n_threads // nt, "HIST_SEED": seed * 1000 + r,
                             "HIST_EXT": cfg[0], "HIST_CONV": cfg[1]})
         return out
 
